@@ -425,6 +425,8 @@ class Interp(object):
                 work.extendleft(reversed(self.D[d]))          # replaced in place (A.2)
             elif F == 1:
                 if factor is not None:
+                    if factor in (31011, 31012):
+                        raise RefError('delayed repetition (031011 / 031012) is outside the reference model')
                     if (factor // 1000) % 100 != 31:
                         self.ambiguous.append('replication factor %06d is not class 31' % factor)
                     self.element(factor)
